@@ -43,6 +43,8 @@ type hostileRun struct {
 	start time.Time
 	err   error
 	inInput bool
+	// ackBytes counts the bytes fed to Input since the ack list was last seen empty
+	ackBytes int
 	// noAdmission switches the sender-side admission oracle off (C05 feeds
 	// arbitrary bytes whose effect on the window is not modelled)
 	noAdmission bool
@@ -140,6 +142,9 @@ func (h *hostileRun) done(what string) {
 		return
 	}
 	st := h.k.VerifState(false)
+	if st.AckList == 0 {
+		h.ackBytes = 0
+	}
 	if st.RcvQueue == int(st.RcvWnd) {
 		h.obs.fullRcvQ = true
 	}
@@ -264,6 +269,7 @@ func (h *hostileRun) step(t *rapid.T) {
 }
 
 func (h *hostileRun) input(raw []byte, ackNoDelay bool) {
+	h.ackBytes += len(raw)
 	h.sm.deliver(h.cfg.Conv, raw)
 	h.inInput = true
 	h.k.Input(raw, kcp.IKCP_PACKET_REGULAR, ackNoDelay)
